@@ -63,6 +63,9 @@ def predictProgram (ir : IR) : List String :=
     let mx : Option Nat := (parts[1]?).bind String.toNat?
     runnerLines (runner P dfsScheduler ir.steps fuelLoop fuelSeg 1000000
       { dfs := Dfs.DfsState.new mx, allowRandom := true } [])
+  | "pct" =>
+    runnerLines (runner P pctScheduler ir.steps fuelLoop fuelSeg 100000
+      (Pct.PctState.newFromSeed (num 1) (max (num 2) 1) (max (num 3) 1)) [])
   | other => [s!"E model-unsupported-run {other}"]
 
 /-! ### Independent enumeration of the choice tree (shares no code with `Sched/Dfs.lean`) -/
